@@ -35,6 +35,7 @@ type replayCase struct {
 	Type   string            `json:"type,omitempty"`
 	Snip   string            `json:"snippet,omitempty"`
 	Scalar *scalarReplay     `json:"scalar,omitempty"` // kind scalar: field, payload, depth (scalarprobe.go)
+	Ctx    *ctxReplay        `json:"ctx,omitempty"`    // kind ctx: the node's own field / the per-file input (ctxprobe.go)
 }
 
 func caseOf(p *Prog) replayCase {
@@ -180,6 +181,9 @@ func (rn *runner) judge(progs []*Prog, br *BatchResult, shrinkPass bool) {
 			}
 		}
 		opComplete(c, p, io)
+		if io.Exit != -1 {
+			nsEffect(c, p, io)
+		}
 		if rn.explore != nil && os.Getenv("C16_ONLY") != "" {
 			fmt.Fprintf(rn.explore, "OBS %s %v same=%v\n  compiled: %s\n  interp:   %s\n", p.Name, p.Tags, co.Same(io), co, io)
 		}
@@ -453,7 +457,7 @@ func Run(c *vh.Ctx) {
 			c.Note("bad replay: %v", err)
 			return
 		}
-		if rc.Kind == "struct" || rc.Kind == "order" || rc.Kind == "scalar" {
+		if rc.Kind == "struct" || rc.Kind == "order" || rc.Kind == "scalar" || rc.Kind == "ctx" {
 			structReplay(c, m, rc)
 			return
 		}
@@ -465,13 +469,13 @@ func Run(c *vh.Ctx) {
 		return
 	}
 
-	c.Res.Rule = "differential: every program is translated by the real compile command, linked into one runner binary per batch and run compiled (Register+RunCompiledFile) and interpreted (LoadAndRun) in separate child processes; compared: stdout, kind of the uncaught error (first stderr line without file/position), exit status. Programs: every feature of the alphabet alone (exhaustive over the alphabet), seeded mixes of 2..5 features, lexh.GenSafe programs, library+entry class programs, order features (every ordered collection of the AST — class properties, parameters, arguments, array items, statements, match arms, catch clauses, switch cases, interface and use lists, operands — declared in a seeded scrambled order and printed through every observer: foreach, json_encode, (array) cast, var_dump, string conversion, serialize, first key, first-match-wins dispatch, tracer calls), scalar-payload features (every payload class — strings with 0/1/2/3/many newlines, tabs after newlines, backtick, backslash, quotes, `$`, printf verbs, NUL/control bytes, CR, invalid UTF-8, multi-byte and non-printable runes, syntax look-alikes, empty, very long; ints at the 7..63-bit boundaries in every base; floats incl. -0.0, 5e-324, 1e308, 17 digits, INF/NAN by expression; bools, null; unusual identifiers and keys — in every literal form: escaped / real newlines in double and single quotes, heredoc, nowdoc, indented marker, interpolation parts, inline HTML — at every nesting context of the generator incl. library-class members; a difference is shrunk to the single payload+context), operand features (every syntactic form with operand positions — 25 binary / comparison / logical / bitwise / coalescing operators, unary operators, casts, empty / isset / clone / instanceof / like, ternary, match subject and arm, array key / element / spread, index, range, interpolation, property access, call / new / throw arguments, variable variables, ++/-- in 8 statement shapes, 13 compound assignments in 4 shapes, plain / chained / list assignment, switch / foreach / echo / unset / static / heredoc subjects — as one closure per probe: variable × variable, variable × literal, literal × variable, literal × literal, in the value, assignment, if, for, while, do-while, ternary and loop-counter contexts, called with every value of a 64-value pool: ints incl. the limits, floats incl. the fractional neighbours of every int literal used, -0.0, INF, NAN, numeric and non-numeric strings, bools, null, arrays, objects; the result is var_dumped, a differing record becomes a one-closure one-call program), deterministic echo-only corpus files. non-trivial = the interpreted run prints something or ends in an uncaught error; distinct = distinct source text. structural: per AST node type found in parsed snippets, Emit's path and the field list of a reflective literal, model vs real Generator; order probe: exchanging two distinguishable members of an ordered field that reaches the text must change the text the real Generator emits; scalar probe: every scalar field of every node type is set to every payload of its class and emitted by the real Generator at three indentation depths — the generated text, parsed by go/parser and evaluated by go/constant, must contain a literal equal to the payload (model tie: Lean unquote = Go's reading of every string literal, Lean quote = the generator's text)"
+	c.Res.Rule = "differential: every program is translated by the real compile command, linked into one runner binary per batch and run compiled (Register+RunCompiledFile) and interpreted (LoadAndRun) in separate child processes; compared: stdout, kind of the uncaught error (first stderr line without file/position), exit status. Programs: every feature of the alphabet alone (exhaustive over the alphabet), seeded mixes of 2..5 features, lexh.GenSafe programs, library+entry class programs, order features (every ordered collection of the AST — class properties, parameters, arguments, array items, statements, match arms, catch clauses, switch cases, interface and use lists, operands — declared in a seeded scrambled order and printed through every observer: foreach, json_encode, (array) cast, var_dump, string conversion, serialize, first key, first-match-wins dispatch, tracer calls), scalar-payload features (every payload class — strings with 0/1/2/3/many newlines, tabs after newlines, backtick, backslash, quotes, `$`, printf verbs, NUL/control bytes, CR, invalid UTF-8, multi-byte and non-printable runes, syntax look-alikes, empty, very long; ints at the 7..63-bit boundaries in every base; floats incl. -0.0, 5e-324, 1e308, 17 digits, INF/NAN by expression; bools, null; unusual identifiers and keys — in every literal form: escaped / real newlines in double and single quotes, heredoc, nowdoc, indented marker, interpolation parts, inline HTML — at every nesting context of the generator incl. library-class members; a difference is shrunk to the single payload+context), operand features (every syntactic form with operand positions — 25 binary / comparison / logical / bitwise / coalescing operators, unary operators, casts, empty / isset / clone / instanceof / like, ternary, match subject and arm, array key / element / spread, index, range, interpolation, property access, call / new / throw arguments, variable variables, ++/-- in 8 statement shapes, 13 compound assignments in 4 shapes, plain / chained / list assignment, switch / foreach / echo / unset / static / heredoc subjects — as one closure per probe: variable × variable, variable × literal, literal × variable, literal × literal, in the value, assignment, if, for, while, do-while, ternary and loop-counter contexts, called with every value of a 64-value pool: ints incl. the limits, floats incl. the fractional neighbours of every int literal used, -0.0, INF, NAN, numeric and non-numeric strings, bools, null, arrays, objects; the result is var_dumped, a differing record becomes a one-closure one-call program), namespace-section features (WHOLE files, never hoisted or mixed: 2..3 `namespace` sections per file in every layout the parser accepts — plain, nested name, last extends first, global code first, re-opened, braced, unbraced then braced — with, in every section, a same-named function, a section-only function, forward references, qualified / relative names and the global fallback, a constant, library classes named without qualification, a use alias, magic constants, top-level variables and closures; the same inside library files with several sections; every function answers with the label of its section), deterministic echo-only corpus files. non-trivial = the interpreted run prints something or ends in an uncaught error; distinct = distinct source text. structural: per AST node type found in parsed snippets, Emit's path and the field list of a reflective literal, model vs real Generator; order probe: exchanging two distinguishable members of an ordered field that reaches the text must change the text the real Generator emits; scalar probe: every scalar field of every node type is set to every payload of its class and emitted by the real Generator at three indentation depths — the generated text, parsed by go/parser and evaluated by go/constant, must contain a literal equal to the payload (model tie: Lean unquote = Go's reading of every string literal, Lean quote = the generator's text); ctx probe: every node instance is emitted under ParsedFiles that differ only in Namespace / Path; a node field that holds the file's namespace in a parsed one-namespace file (learned from the data) is set to a sentinel and the node's OWN value must reach the generated text (tie: the text depends on a per-file input iff the regenerated uses of the generator's fields say a handler in the subtree prints it); resolve tie: Model.EmitCtx.resolve vs the real CallLater.GetValue over every subset of a 4-function universe x 5 namespaces x 5 spellings"
 
 	// ---- structural correspondence (model vs real Generator)
 	structStream(c, m)
 
 	// ---- differential batches
-	var entryPool, clsPool, knownFeat, alone []*feature
+	var entryPool, clsPool, knownFeat, alone, wholeCls []*feature
 	for i := range features {
 		f := &features[i]
 		switch {
@@ -479,6 +483,10 @@ func Run(c *vh.Ctx) {
 			knownFeat = append(knownFeat, f)
 		case aloneOnly[f.Tag]:
 			alone = append(alone, f)
+		case f.Whole && f.Group == "nscls":
+			wholeCls = append(wholeCls, f) // whole files with library classes: alone, in the class batch
+		case f.Whole:
+			alone = append(alone, f) // whole files (several namespace sections): alone, in the entry batch
 		case f.Group == "cls":
 			clsPool = append(clsPool, f)
 			// (classes are only mixed with other class features and entry features in the class batch)
@@ -550,6 +558,9 @@ func Run(c *vh.Ctx) {
 				progs = append(progs, FeatProg(c.Rand, f, name("f"), "cls"))
 			}
 		}
+		for _, f := range wholeCls {
+			progs = append(progs, FeatProg(c.Rand, f, name("f"), "cls"))
+		}
 		both := append(append([]*feature{}, clsPool...), clsPool...)
 		both = append(both, entryPool...)
 		for i := 0; i < c.N(60, 200); i++ {
@@ -567,7 +578,7 @@ func Run(c *vh.Ctx) {
 	}
 	rn.shrink()
 	c.Res.Exhaustive = true
-	c.Res.ExhaustiveWhat = fmt.Sprintf("every single-feature program of the %d-feature alphabet (control flow, expressions, functions, closures, exceptions, library classes, entry-file declarations, ordered collections, scalar payloads, operand kinds), each with seeded parameters; the scalar probe over every (scalar field, payload) pair", len(features))
+	c.Res.ExhaustiveWhat = fmt.Sprintf("every single-feature program of the %d-feature alphabet (control flow, expressions, functions, closures, exceptions, library classes, entry-file declarations, ordered collections, scalar payloads, operand kinds, files with several namespace sections), each with seeded parameters; the scalar probe over every (scalar field, payload) pair", len(features))
 	if m != nil {
 		c.Res.ModelLines = m.Lines
 	}
